@@ -243,14 +243,44 @@ pub fn colour_hex(c: u32) -> String {
     format!("#{:06x}", c & 0xffffff)
 }
 
+/// `rgb(r,g,b)` in one of three spellings (compact, spaced, upper case with inner padding).
+pub fn colour_rgb_fn(c: u32, style: u8) -> String {
+    let (r, g, b) = ((c >> 16) & 0xff, (c >> 8) & 0xff, c & 0xff);
+    match style % 3 {
+        0 => format!("rgb({},{},{})", r, g, b),
+        1 => format!("rgb({}, {}, {})", r, g, b),
+        _ => format!("RGB( {} , {} , {} )", r, g, b),
+    }
+}
+
+/// The value of a colour written as `#rrggbb` (or bare hex digits) or `rgb(r, g, b)`.
+pub fn colour_value(s: &str) -> Option<u32> {
+    let t = s.trim();
+    let low = t.to_ascii_lowercase();
+    if let Some(args) = low.strip_prefix("rgb(").and_then(|x| x.strip_suffix(')')) {
+        let v: Vec<u32> = args.split(',').filter_map(|x| x.trim().parse().ok()).collect();
+        if v.len() == 3 && v.iter().all(|x| *x < 256) {
+            return Some((v[0] << 16) | (v[1] << 8) | v[2]);
+        }
+        return None;
+    }
+    u32::from_str_radix(t.trim_start_matches('#'), 16).ok()
+}
+
 impl Decl {
     pub fn to_css(&self, upper: bool) -> String {
         let imp = if self.important { " !important" } else { "" };
         let name = |n: &str| if upper { n.to_uppercase() } else { n.to_string() };
         let hex = |c: u32| if upper { colour_hex(c).to_uppercase() } else { colour_hex(c) };
+        // one colour in four is written with the rgb() function (three spellings), the rest as #rrggbb
+        let spell = |c: u32, hex: String| match (c ^ (c >> 8) ^ (c >> 16)) % 8 {
+            0 => colour_rgb_fn(c, 0),
+            1 => colour_rgb_fn(c, if upper { 2 } else { 1 }),
+            _ => hex,
+        };
         match &self.prop {
-            Prop::Color(c) => format!("{}:{}{}", name("color"), hex(*c), imp),
-            Prop::BgColor(c) => format!("{}:{}{}", name("background-color"), hex(*c), imp),
+            Prop::Color(c) => format!("{}:{}{}", name("color"), spell(*c, hex(*c)), imp),
+            Prop::BgColor(c) => format!("{}:{}{}", name("background-color"), spell(*c, hex(*c)), imp),
             Prop::DisplayNone => format!("{}:none{}", name("display"), imp),
             Prop::ZeroHeightHidden(max) => format!("{}:0{};{}:hidden{}", name(if *max { "max-height" } else { "height" }), imp, name("overflow"), imp),
             Prop::ZeroHeightMixed(max) => {
@@ -539,7 +569,7 @@ pub fn parse_inline(style: &str) -> Vec<Decl> {
         let important = val.contains("!important");
         let val = val.replace("!important", "");
         let val = val.trim();
-        let hex = |s: &str| u32::from_str_radix(s.trim().trim_start_matches('#'), 16).ok();
+        let hex = |s: &str| colour_value(s);
         match k.trim().to_ascii_lowercase().as_str() {
             "color" => {
                 if let Some(c) = hex(val) {
